@@ -187,6 +187,25 @@ def run(shard, ctx):
                 check_attached(ctx, dev, tgt, devtype, wit)
                 use_primary(ctx, s, tgt, wit)
                 w.close(dev)
+        # units of every age: each VERSION (0 = no standard claimed, 1..7 = SCSI-1 .. SPC-5) and RESPONSE DATA FORMAT, with
+        # qualifiers other than 000b too; the selection follows the peripheral device type field alone
+        for version in list(range(8)) + [0x80, 0x83]:
+            for rdf in (0, 1, 2):
+                for devtype in (0x00, 0x01, 0x05, 0x08, 0x0C, 0x1F):
+                    for q in (0, 1, 3, 5):
+                        dev, tgt = w.new_device(devtype, q)
+                        tgt.version, tgt.response_data_format = version, rdf
+                        wit = {"transport": t, "types": [devtype], "qualifier": q, "inquiry_version": version, "response_data_format": rdf}
+                        ctx.case((t, devtype, q, version, rdf), True)
+                        ctx.count("attaches_to_units_of_other_versions")
+                        try:
+                            SCSI(dev)
+                        except Exception as e:  # noqa: BLE001
+                            ctx.fail("C16:attach_raises.%s" % type(e).__name__, "SCSI(dev) raised %s" % e, wit, exc=e)
+                            w.close(dev)
+                            continue
+                        check_attached(ctx, dev, tgt, devtype, wit)
+                        w.close(dev)
         return
     if shard["kind"] == "revisit":
         if t == "sgio":
@@ -300,11 +319,25 @@ def run_attach_faults(ctx, w, SCSI, t):
     # ... and with other statuses than CHECK CONDITION: named ones, obsolete ones, and the pseudo statuses a binding reports
     # for a cancelled / failed / timed-out task
     faults += [("status", st, None, None) for st in (0x08, 0x18, 0x28, 0x30, 0x40, 0x04, 0x10, 0x22, 0x14, 0xFF, 0x0F000000, 0x0F000001, 0x0F000002)]
+    ncase = 0
     for devtype in (0x01, 0x05, 0x08, 0x00, 0x1F):
         for k in (1, 2, 3):
             for kind, rc, key, asc in faults:
                 if kind == "status" and (k > 1 or (t == "sgio" and rc > 0xFF)):
                     continue
+                ncase += 1
+                if ncase % 3 == 0:
+                    # what other users of the library did before must not matter: a facade on another unit sent a command whose
+                    # sense the caller looks at himself (ATA PASS-THROUGH; answered GOOD, or with CHECK CONDITION)
+                    dev0, tgt0 = w.new_device(0, 0)
+                    try:
+                        s0 = SCSI(dev0)
+                        tgt0.faults[tgt0.n] = (0, None) if ncase % 2 else (2, SN.build(0x72, 0, 1, 0x00, 0x1D, 8))
+                        (s0.atapassthrough16 if ncase % 4 < 2 else s0.atapassthrough12)(4, 2, 1, 1, 0, 0, 0, 1, 0, 0xEC)
+                        ctx.count("attach_faults_after_raw_sense_command")
+                    except Exception as e:  # noqa: BLE001
+                        ctx.count("raw_sense_command_raised_%s" % type(e).__name__)
+                    w.close(dev0)
                 dev, tgt = w.new_device(devtype, 0)
                 for i in range(k):
                     tgt.faults[i] = (2, SN.build(rc, 0, key, asc, i, 18 if rc < 0x72 else 8)) if kind == "cc" else (rc, None)
